@@ -4,7 +4,8 @@
 //! inside the callback), every evaluation of a per-layer filter, and every call that reached the
 //! outermost collector.  One process per case: the callsite interest cache is process-global.
 //!
-//! stdin: one JSON case {"stack":[layer,..] (innermost `with` first), "ops":[[code,arg],..]}.
+//! stdin: one JSON case {"stack":[layer,..] (innermost `with` first), "ops":[[code,arg],..]}; with "stack2" a second
+//! stack lives on a second thread and the ops are [code,arg,thread], handed out one at a time by the main thread.
 //! stdout: JSON lines.
 use std::collections::HashMap;
 use std::io::Read;
@@ -424,12 +425,117 @@ fn dispatch_for(stack: &[Value], log: &Log) -> Dispatch {
     }
 }
 
+/// one operation on the current thread (whose default dispatcher is the stack under test)
+fn exec_op(code: &str, arg: usize, handles: &mut Vec<Option<tracing::Span>>, log: &Log) {
+    match code {
+        "E" => emit_event(arg),
+        "S" => {
+            let s = make_span(arg - 15);
+            handles.push(if s.is_none() { None } else { Some(s) });
+        }
+        "N" => {
+            if let Some(Some(s)) = handles.get(arg) {
+                s.with_collector(|(id, d)| d.enter(id));
+            }
+        }
+        "X" => {
+            if let Some(Some(s)) = handles.get(arg) {
+                s.with_collector(|(id, d)| d.exit(id));
+            }
+        }
+        "R" => {
+            if let Some(Some(s)) = handles.get(arg) {
+                s.record("f", 1u64);
+            }
+        }
+        "D" => {
+            if let Some(h) = handles.get_mut(arg) {
+                *h = None;
+            }
+        }
+        "P" => {
+            let r = probe(arg - 30);
+            push(log, json!({"res": r}));
+        }
+        other => panic!("unknown op {}", other),
+    }
+}
+
+fn take_lines(log: &Log) -> Vec<Value> {
+    std::mem::take(&mut log.lock().unwrap_or_else(|e| e.into_inner()).lines)
+}
+
+/// two stacks live on two threads; the main thread hands the operations out one at a time, so the
+/// interleaving is the one the case prescribes.  ops: [code, arg, thread].
+fn run_two(case: &Value) {
+    let logs: [Log; 2] = [Arc::new(Mutex::new(Shared::default())), Arc::new(Mutex::new(Shared::default()))];
+    let stacks = [case["stack"].as_array().unwrap().clone(), case["stack2"].as_array().unwrap().clone()];
+    let built = std::panic::catch_unwind(std::panic::AssertUnwindSafe(|| {
+        [dispatch_for(&stacks[0], &logs[0]), dispatch_for(&stacks[1], &logs[1])]
+    }));
+    let dispatches = match built {
+        Ok(d) => d,
+        Err(e) => {
+            println!("{}", json!({"build_panic": panic_msg(&e)}));
+            std::process::exit(0);
+        }
+    };
+    println!("{}", json!({"hint": level_num(LevelFilter::current())}));
+    let ops = case["ops"].as_array().unwrap().clone();
+    // worker threads: receive (code, arg), run it under their own default dispatcher, answer Ok / panic message
+    let mut txs = Vec::new();
+    let mut rxs = Vec::new();
+    let mut joins = Vec::new();
+    for t in 0..2 {
+        let (tx, rx) = std::sync::mpsc::channel::<Option<(String, usize)>>();
+        let (dtx, drx) = std::sync::mpsc::channel::<Result<(), String>>();
+        let dispatch = dispatches[t].clone();
+        let log = logs[t].clone();
+        joins.push(std::thread::spawn(move || {
+            tracing::dispatch::with_default(&dispatch, || {
+                let mut handles: Vec<Option<tracing::Span>> = Vec::new();
+                while let Ok(Some((code, arg))) = rx.recv() {
+                    let r = std::panic::catch_unwind(std::panic::AssertUnwindSafe(|| exec_op(&code, arg, &mut handles, &log)));
+                    let _ = dtx.send(r.map_err(|e| panic_msg(&e)));
+                }
+                // the handles die with the thread, under this thread's default dispatcher
+            });
+        }));
+        txs.push(tx);
+        rxs.push(drx);
+    }
+    let mut out: Vec<Value> = Vec::new();
+    for (i, op) in ops.iter().enumerate() {
+        let code = op[0].as_str().unwrap().to_string();
+        let arg = op[1].as_u64().unwrap() as usize;
+        let t = op[2].as_u64().unwrap() as usize;
+        txs[t].send(Some((code, arg))).unwrap();
+        let r = rxs[t].recv().unwrap();
+        let own = take_lines(&logs[t]);
+        let other = take_lines(&logs[1 - t]);
+        out.push(json!({"op": i, "t": t, "obs": own, "other": other}));
+        if let Err(msg) = r {
+            out.push(json!({"panic": msg, "op": i}));
+            break;
+        }
+    }
+    for v in out {
+        println!("{}", v);
+    }
+    use std::io::Write;
+    std::io::stdout().flush().unwrap();
+    std::process::exit(0);
+}
+
 fn main() {
     let mut input = String::new();
     std::io::stdin().read_to_string(&mut input).unwrap();
     let case: Value = serde_json::from_str(&input).expect("case json");
-    let log: Log = Arc::new(Mutex::new(Shared::default()));
     std::panic::set_hook(Box::new(|_| {}));
+    if case.get("stack2").is_some() {
+        run_two(&case);
+    }
+    let log: Log = Arc::new(Mutex::new(Shared::default()));
     let stack = case["stack"].as_array().unwrap().clone();
     let built = std::panic::catch_unwind(std::panic::AssertUnwindSafe(|| dispatch_for(&stack, &log)));
     let dispatch = match built {
@@ -447,40 +553,8 @@ fn main() {
         for (i, op) in ops.iter().enumerate() {
             let code = op[0].as_str().unwrap().to_string();
             let arg = op[1].as_u64().unwrap() as usize;
-            let log2 = log.clone();
-            let r = std::panic::catch_unwind(std::panic::AssertUnwindSafe(|| match code.as_str() {
-                "E" => emit_event(arg),
-                "S" => {
-                    let s = make_span(arg - 15);
-                    handles.push(if s.is_none() { None } else { Some(s) });
-                }
-                "N" => {
-                    if let Some(Some(s)) = handles.get(arg) {
-                        s.with_collector(|(id, d)| d.enter(id));
-                    }
-                }
-                "X" => {
-                    if let Some(Some(s)) = handles.get(arg) {
-                        s.with_collector(|(id, d)| d.exit(id));
-                    }
-                }
-                "R" => {
-                    if let Some(Some(s)) = handles.get(arg) {
-                        s.record("f", 1u64);
-                    }
-                }
-                "D" => {
-                    if let Some(h) = handles.get_mut(arg) {
-                        *h = None;
-                    }
-                }
-                "P" => {
-                    let r = probe(arg - 30);
-                    push(&log2, json!({"res": r}));
-                }
-                other => panic!("unknown op {}", other),
-            }));
-            let lines: Vec<Value> = std::mem::take(&mut log.lock().unwrap_or_else(|e| e.into_inner()).lines);
+            let r = std::panic::catch_unwind(std::panic::AssertUnwindSafe(|| exec_op(&code, arg, &mut handles, &log)));
+            let lines = take_lines(&log);
             out.push(json!({"op": i, "obs": lines}));
             if let Err(e) = r {
                 out.push(json!({"panic": panic_msg(&e), "op": i}));
